@@ -69,7 +69,7 @@ MODELLED = ('volume.py: _prepare_getitem_index, _prepare_pad_width, _permute_aff
             'VolumeToVolumeTransformer.affine, spacing, direction, position, center_position, handedness, '
             'get_geometry / copy')
 STRATA = ['history', 'history_malformed', 'single', 'closest', 'geom_with_array', 'history_query',
-          'query_op_query']
+          'query_op_query', 'scale_entry']
 RULE = ('history: 1..8 random operations from the full alphabet on volumes with shape <= 5 per axis, 0-2 '
         'channel dimensions, directions = 48 signed axis permutations, rational rotations (3-4-5, 5-12-13, '
         '1-2-2), integer scaled-orthogonal matrices incl. 45-degree ties, both handednesses, dyadic spacings; '
@@ -161,9 +161,57 @@ INTEGER = [      # scaled orthogonal with integer entries (exact in float64); in
 ]
 
 
-def _gen_affine(rng):
+# --------------------------------------------------------------------------- scale of the affine
+# The property has no length scale: an operation may not depend on how large a voxel is in mm.
+# Units a spacing is drawn from (mm per voxel): radiology (mm), whole-slide / micro-CT (a fraction of a
+# micrometre .. a micrometre), nanometre (electron microscopy, or metres mistaken for mm the other way
+# round) and 'km' (micrometres written down as if they were mm).
+UNITS = {
+    'mm': [F(1)],
+    'um': [F(1, 1000), F(1, 4000), F(1, 2000), F(1, 4096), F(1, 8000)],
+    'nm': [F(1, 10**6), F(1, 2**20)],
+    'km': [F(1000), F(4096)],
+}
+SCALES = ['mm', 'um', 'nm', 'km']
+# small tilts: rational rotations with tan(angle / 2) = 1 / n  (2.9 deg .. 0.0001 deg), so that
+# spacing * sin(angle) is a legitimate non-zero entry that is orders of magnitude below the spacing
+SMALL_N = [40, 76, 100, 250, 1000, 5000, 10**5, 10**6]
+
+
+def _rot_cols(axis, t):
+    """Columns of the rational rotation about `axis` with tan(angle / 2) = t."""
+    c, s = (1 - t * t) / (1 + t * t), 2 * t / (1 + t * t)
+    a, b = [(1, 2), (2, 0), (0, 1)][axis]
+    cols = [[F(int(i == j)) for i in range(3)] for j in range(3)]
+    cols[a][a], cols[a][b] = c, s
+    cols[b][a], cols[b][b] = -s, c
+    return cols
+
+
+def _mat_mul(A, B):
+    """A @ B for matrices given as lists of columns."""
+    return [[sum(A[k][i] * B[j][k] for k in range(3)) for i in range(3)] for j in range(3)]
+
+
+def _small_rot(rng):
+    """A rotation by a small angle about one axis, or about two axes one after the other."""
+    axes = rng.sample(range(3), rng.choice([1, 1, 2]))
+    M = None
+    for ax in axes:
+        Rm = _rot_cols(ax, F(rng.choice([1, -1]), rng.choice(SMALL_N)))
+        M = Rm if M is None else _mat_mul(Rm, M)
+    return M
+
+
+def _gen_affine(rng, scale=None, tilt=None):
+    if scale is None:
+        scale = 'mm' if rng.random() < 0.72 else rng.choice(['um', 'um', 'um', 'nm', 'km'])
+    if tilt is None:
+        tilt = rng.random() < (0.12 if scale == 'mm' else 0.6)
     k = rng.random()
-    if k < 0.45:
+    if tilt:
+        cols = _small_rot(rng)
+    elif k < 0.45:
         cols = rng.choice(SIGNED_PERMS)
     elif k < 0.7:
         cols = rng.choice(RATIONAL)
@@ -177,14 +225,27 @@ def _gen_affine(rng):
         src = max(range(3), key=lambda i: abs(sp[d][i]))
         sg = sp[d][src]
         new.append([sg * x for x in cols[src]])
-    spac = [F(rng.choice([1, 1, 2, 3, 5]), rng.choice([1, 1, 2, 4])) for _ in range(3)]
+    u = rng.choice(UNITS[scale])
+    spac = [u * F(rng.choice([1, 1, 2, 3, 5]), rng.choice([1, 1, 2, 4])) for _ in range(3)]
+    if scale != 'mm' and rng.random() < 0.35:
+        # one axis much coarser than the others (slice thickness / focal plane distance)
+        spac[rng.randrange(3)] *= rng.choice([4, 10, 40])
     new = [[x * spac[d] for x in new[d]] for d in range(3)]
-    pos = [F(rng.randint(-40, 40), rng.choice([1, 2, 4])) for _ in range(3)]
+    if scale == 'mm' and not tilt:
+        pos = [F(rng.randint(-40, 40), rng.choice([1, 2, 4])) for _ in range(3)]
+    else:
+        # origin: a few .. a few hundred thousand voxels away from the origin of the frame of reference,
+        # sometimes with a component that is tiny (but not zero) in mm
+        far = rng.choice([1, 1, 100, 10**4])
+        pos = [u * far * F(rng.randint(-40, 40), rng.choice([1, 2, 4])) for _ in range(3)]
+        if rng.random() < 0.35:
+            pos[rng.randrange(3)] = rng.choice([F(0), u / 64, F(3, 10**6), F(-1, 2**18), F(7, 10**7),
+                                                -u * F(5, 2)])
     return [str(x) for c in new for x in c] + [str(x) for x in pos]
 
 
-def _gen_volume(rng, small=False):
-    hi = [1, 1, 2, 2, 3, 3, 4, 5] if not small else [1, 2, 2, 3]
+def _gen_volume(rng, small=False, hi=None):
+    hi = hi or ([1, 1, 2, 2, 3, 3, 4, 5] if not small else [1, 2, 2, 3])
     shape = [rng.choice(hi) for _ in range(3)]
     nch = rng.choice([0, 0, 1, 1, 2])
     descs = rng.sample(range(NDESC), nch)
@@ -1056,6 +1117,52 @@ def _gen_query_op_query(rng, first=None, entry=None):
     return c
 
 
+# every entry point that touches the affine, applied to a volume of every scale (see UNITS) whose axes are
+# tilted by a small angle against the reference axes: the affine then holds legitimate non-zero entries
+# far below the voxel size, and an origin of which a component may be tiny
+SCALE_ENTRIES = ['permute_id', 'permute', 'swap', 'orient', 'handed_swap', 'handed_flip', 'flip', 'get_step',
+                 'get_int', 'get_slice', 'crop_to', 'pad', 'pad_to', 'pad_or_crop', 'rand_permute', 'rand_flip',
+                 'rand_crop', 'copy']
+PERMUTING_ENTRIES = ['permute', 'swap', 'orient', 'handed_swap', 'rand_permute', 'get_step', 'permute_id']
+
+
+def _scale_entry_op(rng, name, c, aff=None):
+    if name == 'permute_id':
+        return ['permute', [0, 1, 2]]
+    if name in ('handed_swap', 'handed_flip') and aff is not None:
+        # ask for the handedness the object does not have, so that the operation acts
+        h = 'RIGHT_HANDED' if _det_sign(aff) < 0 else 'LEFT_HANDED'
+        if name == 'handed_flip':
+            return ['handed', h, rng.randrange(3), None]
+        return ['handed', h, None, rng.sample(range(3), 2)]
+    return _entry_op(rng, name, c)
+
+
+def _gen_scale_entry(rng, scale=None, entry=None, tilt=None):
+    c = _gen_volume(rng, hi=[2, 2, 3, 3, 4, 5])
+    scale = scale or rng.choice(['um', 'um', 'nm', 'km', 'mm'])
+    entry = entry or rng.choice(SCALE_ENTRIES)
+    c['affine'] = _gen_affine(rng, scale=scale, tilt=(rng.random() < 0.85) if tilt is None else tilt)
+    c['cs'] = 'SLIDE' if (scale in ('um', 'nm') and entry != 'orient' and rng.random() < 0.5) else 'PATIENT'
+    c['kind'] = 'scale_entry'
+    c['scale'] = scale
+    c['ops'] = []
+    if rng.random() < 0.4:
+        c['ops'].append(_rand_query(rng, c['shape'], c['shape'], names=rng.sample(['dirsp', 'pos', 'inv', 'sp2'], 2)))
+    c['ops'].append(_scale_entry_op(rng, entry, c, c['affine']))
+    shape, chans = _track(c)
+    c['ops'].append(_rand_query(rng, shape, c['shape'],
+                                names=['dirsp', 'pos', 'sp2', 'probe', 'inv', 'find', 'center', 'xf_to']))
+    if rng.random() < 0.6:
+        c2 = dict(c, shape=shape, chans=chans)
+        names = [x for x in PERMUTING_ENTRIES if x != 'orient' or c['cs'] == 'PATIENT']
+        c['ops'].append(_scale_entry_op(rng, rng.choice(names), c2))
+        shape, chans = _track(c)
+        c['ops'].append(_rand_query(rng, shape, c['shape'], names=['dirsp', 'pos', 'probe', 'rt', 'xf_from']))
+    c['expect'] = [None if op[0] == 'query' else 'ok' for op in c['ops']]
+    return c
+
+
 def gen_cases(rng, tier):
     common.import_highdicom()
     nh = {'quick': 300, 'thorough': 9000, 'search': 3000}[tier]
@@ -1092,6 +1199,15 @@ def gen_cases(rng, tier):
                 cases.append(_gen_query_op_query(rng, f, e))
         for _ in range(nh // 10):
             cases.append(_gen_query_op_query(rng))
+    # scale x entry point: every entry point on a sub-micron volume, and on one of the other scales in turn
+    others = ['nm', 'km', 'mm']
+    reps = 1 if tier == 'quick' else 6
+    for _ in range(reps):
+        for n, e in enumerate(SCALE_ENTRIES):
+            cases.append(_gen_scale_entry(rng, 'um', e, True))
+            cases.append(_gen_scale_entry(rng, others[n % 3], e))
+    for _ in range(nh // 10):
+        cases.append(_gen_scale_entry(rng))
     if tier == 'thorough':
         cases += _exhaustive_small()
     return cases
@@ -1142,9 +1258,25 @@ def _scaled_orthogonal(aff12):
     return None
 
 
+def _scales(*affs):
+    """(voxel size, magnitude) of numpy 4x4 affines: the smallest column norm of the 3x3 parts and the
+    largest absolute entry.  Every tolerance of the oracle is relative to the voxel size (the property has no
+    length scale of its own: 1e-5 mm is nothing for a CT volume and 4% of a voxel on a slide at 40x); the
+    magnitude bounds the rounding noise float64 puts on a coordinate."""
+    import numpy as np
+    vox = min(float(np.sqrt((A[:3, d] ** 2).sum())) for A in affs for d in range(3))
+    mag = max(float(np.abs(A[:3, :]).max()) for A in affs)
+    return vox, mag
+
+
+def _phys_tol(*affs):
+    vox, mag = _scales(*affs)
+    return 1e-6 * vox + 1e-12 * mag
+
+
 def _locate(prev, new):
     """For every voxel of `new` the index of the voxel of `prev` at the same physical
-    coordinate (or -1).  prev/new = (shape, affine12)."""
+    coordinate (or -1).  prev/new = (shape, affine12).  "Same" = within 1e-6 of the smallest voxel."""
     import numpy as np
     (ps, pa), (ns, na) = prev, new
     Ap, An = _A(pa), _A(na)
@@ -1154,8 +1286,7 @@ def _locate(prev, new):
     I = (P - Ap[:3, 3]) @ inv.T
     Ir = np.rint(I).astype(int)
     back = Ir @ Ap[:3, :3].T + Ap[:3, 3]
-    scale = max(1.0, float(np.abs(Ap[:3, :]).max()), float(np.abs(An[:3, :]).max()))
-    hit = (np.abs(back - P).max(axis=1) <= 1e-6 * scale)
+    hit = (np.abs(back - P).max(axis=1) <= _phys_tol(Ap, An))
     inr = np.all((Ir >= 0) & (Ir < np.array(ps)), axis=1)
     flat = (Ir[:, 0] * ps[1] + Ir[:, 1]) * ps[2] + Ir[:, 2]
     return np.where(hit & inr, flat, -1).reshape(ns)
@@ -1367,17 +1498,26 @@ def _check_query(q, ans, cur, first, comp, values_ok, is_geom):
         return f'{name}: raised {ans.kind}'
     A, A0 = _A(cur[1]), _A(first[1])
     ns = cur[0]
-    scale = max(1.0, float(np.abs(A[:3, :]).max()), float(np.abs(A0[:3, :]).max()))
-    tol = 1e-7 * scale
+    vox, mag = _scales(A)
+    ptol = 1e-9 * vox + 1e-12 * mag          # physical quantities (mm): relative to the voxel size
 
-    def close(a, b, t=tol):
+    def close(a, b, t):
+        # index-space / dimensionless quantities
         a, b = np.asarray(a, dtype=float), np.asarray(b, dtype=float)
         return a.shape == b.shape and bool(np.all(np.abs(a - b) <= t * (1 + np.abs(b))))
+
+    def near(a, b, t):
+        # physical quantities: absolute tolerance t (already scaled to the voxel) + 1e-9 relative
+        a, b = np.asarray(a, dtype=float), np.asarray(b, dtype=float)
+        return a.shape == b.shape and bool(np.all(np.abs(a - b) <= t + 1e-9 * np.abs(b)))
     if name in ('inv', 'geom'):
         M = _A(ans)
-        if not close(M @ A, np.eye(4)) or not close(A @ M, np.eye(4)):
+        MA, AM = M @ A, A @ M
+        # M @ A is dimensionless; A @ M has the unit of a length in its last column
+        if not close(MA, np.eye(4), 1e-7) or not close(AM[:3, :3], np.eye(3), 1e-7) or not near(
+                AM[:3, 3], np.zeros(3), 1e-7 * vox + 1e-10 * mag):
             return (f'{name}: inverse_affine is not the inverse of the affine of the same object '
-                    f'(inverse_affine @ affine = {np.round(M @ A, 6).tolist()})')
+                    f'(inverse_affine @ affine = {np.round(MA, 6).tolist()})')
         return None
     if name == 'rt':
         want = [float(x) for p_ in q[1] for x in p_]
@@ -1391,7 +1531,7 @@ def _check_query(q, ans, cur, first, comp, values_ok, is_geom):
     if name in ('xf_to', 'xf_from'):
         T = _A(ans)
         ref = np.linalg.inv(A) @ A0 if name == 'xf_to' else np.linalg.inv(A0) @ A
-        if not close(T, ref, 1e-6 * scale):
+        if not close(T, ref, 1e-6):
             return (f'{name}: VolumeToVolumeTransformer.affine {np.round(T, 6).tolist()} is not '
                     f'inv(to.affine) @ from.affine = {np.round(ref, 6).tolist()}')
         # voxel level: a voxel that descends from initial voxel i is mapped from / to i
@@ -1437,17 +1577,21 @@ def _check_query(q, ans, cur, first, comp, values_ok, is_geom):
         return None
     if name == 'sp2':
         want = [float((A[:3, d] ** 2).sum()) for d in range(3)]
+        ok = near(ans, want, 0.0)
     elif name == 'dirsp':
         want = [float(A[i, d]) for d in range(3) for i in range(3)]
+        ok = near(ans, want, 1e-9 * vox)
     elif name == 'pos':
         want = [float(x) for x in A[:3, 3]]
+        ok = near(ans, want, ptol)
     elif name == 'center':
         want = [float(x) for x in (A @ np.array([(n_ - 1) / 2 for n_ in ns] + [1.0]))[:3]]
+        ok = near(ans, want, ptol)
     elif name == 'hand':
         return None if ans == (_det_sign(cur[1]) < 0) else f'hand: left={ans} but det sign is {_det_sign(cur[1])}'
     else:
         return f'unknown query {name}'
-    return None if close(ans, want, 1e-9 * scale * scale) else f'{name}: {ans}, the affine of the object gives {want}'
+    return None if ok else f'{name}: {ans}, the affine of the object gives {want}'
 
 
 def _same_answer(q, a, b):
@@ -1459,11 +1603,19 @@ def _same_answer(q, a, b):
         return [None if x is None else x[0] for x in a] == [None if x is None else x[0] for x in b]
     if q[0] in ('hand', 'find'):
         return a == b
-    return len(a) == len(b) and bool(np.allclose(a, b, rtol=1e-9, atol=1e-9))
+    if len(a) != len(b):
+        return False
+    # the same float64 operations on the same affine: equal up to a relative 1e-9 of the largest entry
+    top = max([abs(x) for x in b] + [0.0])
+    return bool(np.allclose(a, b, rtol=1e-9, atol=1e-9 * top))
 
 
 def _close_list(a, b):
-    return len(a) == len(b) and all(abs(x - y) <= 1e-9 * (1 + abs(y)) for x, y in zip(a, b))
+    """Affines (12 numbers) of a volume and of its geometry: equal relative to the voxel size."""
+    if len(a) != len(b):
+        return False
+    vox, mag = _scales(_A(b))
+    return all(abs(x - y) <= 1e-9 * vox + 1e-12 * mag for x, y in zip(a, b))
 
 
 def _coq_orient_codes(o):
